@@ -69,7 +69,7 @@ class ExprMixin:
             return models.LIBATTR[full]
         if full in models.FUNCS or name in models.BUILTIN_NAMES:
             return AV(['func'], fn=[('lib', full)])
-        self.unknown(node, f'name {name!r} is not defined in the analysed scope')
+        self.event('unknown', None, 'name', node, f'name {name!r} is not defined in the analysed scope', soft=True)
         return FRESHANY.but(via=['unknown-callee'])
 
     def ev_Tuple(self, e):
